@@ -38,9 +38,10 @@ class _T:
 
 
 class Scheduler:
-    def __init__(self, rng, traced_files, switch_p=0.3, schedule=None, max_steps=20000):
+    def __init__(self, rng, traced_files, switch_p=0.3, schedule=None, max_steps=20000, opcode_files=()):
         self.rng = rng
         self.traced = tuple(traced_files)
+        self.opcode_files = tuple(opcode_files)   # pre-emption at every bytecode (not only every line) in these files
         self.switch_p = switch_p
         self.schedule_in = list(schedule) if schedule is not None else None
         self.schedule_out = []
@@ -58,11 +59,13 @@ class Scheduler:
     # -- thread side
     def _trace(self, frame, event, arg):
         if frame.f_code.co_filename.endswith(self.traced):
+            if self.opcode_files and frame.f_code.co_filename.endswith(self.opcode_files):
+                frame.f_trace_opcodes = True
             return self._ltrace
         return None
 
     def _ltrace(self, frame, event, arg):
-        if event == 'line':
+        if event == 'line' or event == 'opcode':
             t = self._local.t
             t.steps += 1
             if self.region_probe is not None and self.region_probe(frame):
